@@ -38,6 +38,7 @@ type c04Scenario struct {
 	Files    []*c04File `json:"files"`
 	Restarts []int      `json:"restarts_after_arrival,omitempty"`
 	Conc     int        `json:"concurrent_senders"`
+	GapHours int        `json:"hours_since_earlier_instance,omitempty"`
 	Note     string     `json:"note,omitempty"`
 }
 
@@ -221,7 +222,18 @@ func c04Run(c *Ctx, idx int, rng *rand.Rand, sc *c04Scenario, dir string) {
 		_ = send(rs, e, e.data, e.hash)
 	}
 	if len(earlier) > 0 {
-		time.Sleep(time.Duration(1+rng.Intn(72)) * time.Hour) // possibly beyond the 24 h cache window
+		// possibly beyond the 24 h cache window; up to 17 days, so that the predecessor's
+		// record is found only after many of the 10 s look-back retries (24 h further each)
+		gap := 1 + rng.Intn(72)
+		if rng.Intn(2) == 0 {
+			gap = []int{80, 100, 150, 200, 300, 400}[rng.Intn(6)]
+		}
+		sc.GapHours = gap
+		time.Sleep(time.Duration(gap) * time.Hour)
+		// the files of this instance were written recently: their own time must not
+		// reach back to the earlier instance's deliveries (a file time older than those
+		// makes the receiver load that part of the log at once)
+		ftime = time.Now().Add(-time.Duration(1+rng.Intn(50)) * time.Minute)
 		rs.restamp()
 		rs.reboot(false)
 		rs.Stage.Recover()
